@@ -537,8 +537,13 @@ impl Prop for C17 {
             },
             Stage {
                 name: "huge",
-                kind: StageKind::Enumerate { scope: "5 fixed line texts: 2 with 70 000 distinct lines (token ids beyond 16 bits), and per algorithm 1100 x 1100 unrelated distinct lines between a common head and tail".into(), exhaustive: true, gen: |_t, f| {
+                kind: StageKind::Enumerate { scope: "texts of exactly N / N+1 tokens for N at and around the powers of two from 64 to 8192 (lines, words, chars; every algorithm, LCS up to 1025 tokens); 5 fixed line texts: 2 with 70 000 distinct lines (token ids beyond 16 bits), and per algorithm 1100 x 1100 unrelated distinct lines between a common head and tail".into(), exhaustive: true, gen: |_t, f| {
                     for c in huge_line_cases() {
+                        if !f(c) {
+                            return;
+                        }
+                    }
+                    for c in pow2_text_cases() {
                         if !f(c) {
                             return;
                         }
